@@ -8,6 +8,9 @@ Real code (public entry points, over harness.fakecourier with no faults, real se
   kind 'strict'      : TransformRunner.merge_states / ChainedRunner.merge_states(states, strict_states_cnt=n); variants
                        'chained2' / 'chained3' = a chain with two / three AGGREGATING stages; `oneshot` = the states are
                        handed over as a one-shot generator (what compute_result does), not as a list
+  kind 'cache'       : what the handler threads of ONE server do concurrently (in interleaved mode the master resolves the
+                       stage-input handle once per worker request): lazy_fns.maybe_make of cached lazy functions from
+                       several threads, more distinct ones than the cache holds, with a fine thread switch interval
   interleaved + `ack`: RPC latency as an environment choice: the REPLY of the first `enqueue_from_iterator` kick-off
                        (the worker is already pulling the stage input) is held back `ack` ms while the other workers
                        drain the input and finish; `lat` = [[ms, k], ..] holds back the reply of every k-th other call
@@ -26,7 +29,7 @@ from harness.core import err_kind
 
 PID = 'C16'
 TITLE = 'Fault-free distributed execution equals in-process execution'
-LEAN_MODULES = ['MlModel.Properties.C16']
+LEAN_MODULES = ['MlModel.Properties.C16', 'MlModel.Properties.C16Stage', 'MlModel.Properties.C16Merge', 'MlModel.Witness.C16Stage']
 TRUSTED = [
     'the courier transport is harness/fakecourier (in-process, no faults injected here); pickling is what the repo '
     'does itself (cloudpickle of the traced pipeline)',
@@ -114,6 +117,9 @@ def _gen_cases(ctx):
     yield dict(kind='interleaved', workers=rng.randrange(2, 4), n=rng.randrange(2, 13),
                mode=rng.choice(['fused', 'staged', 'noagg']), buffer=rng.choice([0, 1, 2, 5]),
                lat=[[rng.choice([1, 3, 8]), rng.randrange(2, 6)] for _ in range(rng.choice([1, 2]))])
+  # concurrent evaluation on one server: the lazy-function cache is shared by all handler threads (finding C16-F-lru)
+  for threads, iters in ([(2, 1500), (4, 1500), (3, 3000)] if quick else [(t, i) for t in (2, 3, 4, 8) for i in (1000, 3000, 10000)]):
+    yield dict(kind='cache', threads=threads, iters=iters)
   for k in range(0, 5):
     for strict in range(0, 6):
       for variant in ('transform', 'chained'):
@@ -133,6 +139,8 @@ def run_impl(case):
     return run_interleaved(case)
   if kind == 'strict':
     return run_strict(case)
+  if kind == 'cache':
+    return run_cache(case)
   raise ValueError(kind)
 
 
@@ -242,6 +250,48 @@ def run_interleaved(case):
     cl.close()
 
 
+def _sq(i):
+  return i * i
+
+
+def run_cache(case):
+  """`threads` handler threads evaluate cached lazy functions through the public `lazy_fns.maybe_make`: two thirds
+  new ones (insert; evict once the cache is full), one third repeated ones (hits)."""
+  import sys
+  import threading
+  ns = L.setup()
+  lf = ns.lazy_fns
+  lf.clear_cache()
+  errs, wrong = [], []
+
+  def work(t):
+    for j in range(case['iters']):
+      i = (t * 100000 + j) if j % 3 else (j % 7)
+      try:
+        v = lf.maybe_make(lf.trace(_sq)(i, cache_result_=True))
+        if v != i * i:
+          wrong.append([i, v])
+      except Exception as e:  # pylint: disable=broad-except
+        errs.append(f'{type(e).__name__}')
+        return
+
+  old = sys.getswitchinterval()
+  sys.setswitchinterval(1e-6)
+  try:
+    ts = [threading.Thread(target=work, args=(t,), daemon=True) for t in range(case['threads'])]
+    for t in ts:
+      t.start()
+    for t in ts:
+      t.join(30)
+    hang = any(t.is_alive() for t in ts)
+  finally:
+    sys.setswitchinterval(old)
+  info = lf.cache_info()
+  lf.clear_cache()
+  return dict(outcome='hang' if hang else ('returned' if not errs else errs[0]), errors=len(errs), wrong=wrong[:3],
+              currsize=info.currsize, maxsize=info.maxsize, evaluations=info.hits + info.misses)
+
+
 def run_strict(case):
   ns = L.setup()
   T = ns.transform.TreeTransform
@@ -306,6 +356,15 @@ def stage_totals(case):
 
 def oracle(case, obs):
   kind = case['kind']
+  if kind == 'cache':
+    if obs['outcome'] != 'returned':
+      return (f"evaluating cached lazy functions on {case['threads']} handler threads: {obs['errors']} threads died with "
+              f"{obs['outcome']} (in process every evaluation returns its value)")
+    if obs['wrong']:
+      return f"concurrent evaluation returned wrong values (argument, value): {obs['wrong']}"
+    if obs['currsize'] > obs['maxsize']:
+      return f"the cache reports {obs['currsize']} entries, more than its maximum {obs['maxsize']}"
+    return None
   if kind == 'strict':
     k, n = case['states'], case['strict']
     if n >= 1 and k != n:
@@ -399,7 +458,7 @@ def compare(obs, mobs):
 
 
 _ARMS = collections.Counter()
-REQUIRED_ARMS = ['interleaved:kickoff-reply-late(2+ workers)', 'interleaved:reply-latency', 'sharded:two-aggregating-stages',
+REQUIRED_ARMS = ['cache:concurrent-evaluation-beyond-capacity', 'interleaved:kickoff-reply-late(2+ workers)', 'interleaved:reply-latency', 'sharded:two-aggregating-stages',
                  'sharded:three-aggregating-stages', 'strict:multi-stage-oneshot-merged', 'strict:multi-stage-oneshot-rejected']
 
 
@@ -407,6 +466,8 @@ def _cover(case, obs):
   kind = case['kind']
   if oracle(case, obs) is not None:
     _ARMS['(oracle failed)'] += 1      # the verdict is a VIOLATION; coverage does not decide this run
+  if kind == 'cache' and case['threads'] >= 2 and obs['evaluations'] > obs['maxsize']:
+    _ARMS['cache:concurrent-evaluation-beyond-capacity'] += 1
   if kind == 'interleaved' and obs.get('kick_delayed') and case.get('ack') and case['workers'] >= 2:
     _ARMS['interleaved:kickoff-reply-late(2+ workers)'] += 1
   if kind == 'interleaved' and case.get('lat') and obs.get('delayed'):
@@ -432,6 +493,8 @@ def extra(ctx):
 
 def nontrivial(case, obs):
   _cover(case, obs)
+  if case['kind'] == 'cache':
+    return obs['evaluations'] > obs['maxsize'] and case['threads'] >= 2
   if case['kind'] == 'strict':
     return case['states'] >= 2 and case['strict'] >= 1
   return (case['workers'] > 1 or case.get('shards', 1) > 1) and case['n'] >= 2
